@@ -534,10 +534,22 @@ fn magic_cases(recvs: &[Recv], r: &Recv, rng: &mut Rng, prop: &str, _iter: usize
             }
         }
     }
-    let entry = match (&e, r.tr) {
+    let mut entry = match (&e, r.tr) {
         (elem::Element::Field(f), _) if f.name.is_none() => "from_tuple_field",
         (_, tr) => tr.entry(),
     };
+    // a named field whose type arrives inside an invisible group (a `$t:ty` fragment): the `ty` magic
+    // field receives it unchanged, group included
+    if entry == "from_field" && WRAPPER.with(|w| w.get()).is_none() && rng.chance(1, 4) {
+        entry = "from_field_grouped";
+        if let Outcome::Ok(v) = &mut expected {
+            if let Some(obj) = v.get_mut(r.name()).and_then(|o| o.as_object_mut()) {
+                if let Some(t) = obj.get_mut("@ty") {
+                    *t = json!({ "group": t.clone() });
+                }
+            }
+        }
+    }
     let shape = match &e {
         elem::Element::Item(i) => match &i.body {
             elem::EBody::Struct(fs) => format!("item/struct-{}/{}", fs.shape(), fs.list().len().min(6)),
@@ -641,7 +653,7 @@ fn enum_grid_cases(recvs: &[Recv], r: &Recv, rng: &mut Rng, _prop: &str, iter: u
     if names.is_empty() {
         return vec![];
     }
-    const FORMS: usize = 19;
+    const FORMS: usize = 20;
     let (name, var) = names[(iter / FORMS) % names.len()].clone();
     let form = iter % FORMS;
     let e = "choice";
@@ -663,9 +675,9 @@ fn enum_grid_cases(recvs: &[Recv], r: &Recv, rng: &mut Rng, _prop: &str, iter: u
             let inner = nv(&mut ig.ids, &name, lit);
             Some(list(&mut ig.ids, e, vec![inner]))
         }
-        7 => {
+        7 | 19 => {
             // list content: what the variant wants if it is a struct / newtype variant, else `a = 1`
-            let content = match var.map(|v| &v.body) {
+            let mut content = match var.map(|v| &v.body) {
                 Some(VBody::Struct(fs)) => ig.fields_items(rng, r, fs, 1),
                 Some(VBody::Newtype(t)) => {
                     let inner = ig.item_for(rng, &name, t, 1);
@@ -676,7 +688,17 @@ fn enum_grid_cases(recvs: &[Recv], r: &Recv, rng: &mut Rng, _prop: &str, iter: u
                 }
                 _ => vec![nv(&mut ig.ids, "a", int_lit(rng, 1))],
             };
-            let inner = list(&mut ig.ids, &name, content);
+            // form 19: the same list with a semicolon where its first comma belongs - a syntax error inside
+            // the variant's list, located under the variant like any inner error
+            if form == 19 {
+                while content.len() < 2 {
+                    content.push(word(&mut ig.ids, "zz"));
+                }
+            }
+            let mut inner = list(&mut ig.ids, &name, content);
+            if form == 19 {
+                inner.delim = 10;
+            }
             Some(list(&mut ig.ids, e, vec![inner]))
         }
         8 => {
